@@ -155,6 +155,9 @@ func c01pScenario(t *testing.T, o *vOut, seed int64, sc int) {
 		os.MkdirAll(filepath.Dir(lf), 0o700)
 		old := time.Now().Add(-time.Hour)
 		mb, _ := json.Marshal(lockMeta{Created: old, Updated: old})
+		if sc%8 == 6 {
+			mb = nil // an EMPTY lock file (its writer died between creating and filling it): stale after a few looks
+		}
 		os.WriteFile(lf, mb, 0o600)
 		k = 6
 	}
